@@ -33,10 +33,6 @@ impl<'a> BlockFiltersProcess<'a> {
     }
 
     pub fn execute(self) -> Status {
-        if self.filter.storage.is_filter_scripts_empty() {
-            info!("ignoring, filter scripts may have been cleared during syncing");
-            return Status::ok();
-        }
         let peer_state_opt = self.filter.peers.get_state(&self.peer);
         if peer_state_opt.is_none() {
             info!("ignoring, peer {} is disconnected", self.peer);
@@ -60,6 +56,13 @@ impl<'a> BlockFiltersProcess<'a> {
             .matched_blocks()
             .write()
             .expect("poisoned");
+
+        // Checked with the lock held: `set_scripts` may clear the scripts while this handler
+        // waits for the lock, and an empty script set matches every block filter.
+        if self.filter.storage.is_filter_scripts_empty() {
+            info!("ignoring, filter scripts may have been cleared during syncing");
+            return Status::ok();
+        }
 
         let block_filters = self.message.to_entity();
         let start_number: BlockNumber = block_filters.start_number().unpack();
